@@ -14,7 +14,7 @@ ROOT_ENGINES = ["SEA", "SEAX", "GA", "ADAPT", "MWEA", "DE", "DEd", "SHADE", "LHS
 CHILD_ENGINES = ["SEA", "SEAX", "GA", "ADAPT", "MWEA", "DE", "DEd", "SHADE", "CMA", "CMAw", "CMAs", "LOCAL",
                  "LHS", "SOBOL", "CMA", "LOCAL", "CMA", "CUSTOM"]
 BOX = ["sym", "asym", "decimal", "tiny", "huge", "unit"]
-FNS = ["sphere", "multi", "funnels", "plateau", "zero", "linear"]
+FNS = ["sphere", "multi", "funnels", "plateau", "zero", "linear", "offset"]
 
 
 def _level(r: random.Random, engine: str, depth: int, nlevels: int, lowmut: bool) -> dict:
@@ -30,7 +30,8 @@ def _level(r: random.Random, engine: str, depth: int, nlevels: int, lowmut: bool
     elif engine == "MWEA":
         lv.update(pop=8, gens=r.choice([1, 2]), k_elites=2, election_group_size=5)
     elif engine in ("DE", "DEd"):
-        lv.update(pop=r.choice([4, 5, 6, 8]), gens=r.choice([1, 2, 3]), crossover=r.choice([0.9, 0.5, 1.0]))
+        lv.update(pop=r.choice([4, 5, 6, 8]), gens=r.choice([1, 2, 3]), crossover=r.choice([0.9, 0.5, 1.0]),
+                  scaling=r.choice([0.8, 0.8, 0.5, 1.2, 1.5]))
     elif engine == "SHADE":
         lv.update(pop=r.choice([4, 6, 8]), gens=r.choice([1, 2, 3]), mem=r.choice([2, 4]))
     elif engine.startswith("CMA"):
